@@ -14,8 +14,18 @@ from .sym import fresh, fresh_fun, Int, Bool, Node, Obj, IntV
 from .values import *   # noqa
 
 
+CURRENT_WORLD = None        # the LineWorld of the contract being verified (fields compared with string literals)
+
+
 class LineWorld(object):
+    def is_text(self, z, literal):
+        f = self._lits.get(literal)
+        if f is None:
+            f = self._lits[literal] = fresh_fun('field_is_' + ''.join(ch if ch.isalnum() else '_' for ch in literal), Obj, Bool)
+        return f(z)
+
     def __init__(self):
+        self._lits = {}
         self.cpos = fresh_fun('cpos', Obj, Int)
         self.cut = fresh_fun('cut', Obj, Obj)
         self.length = fresh_fun('length', Obj, Int)
